@@ -519,8 +519,9 @@ class Families:
                 out.append(pre + (t,) + c)
         return out
 
-    def s0_pairs(self):
-        """minimal CFG sentence through (production P, position i, child production C)"""
+    def s0_pairs(self, table=0):
+        """minimal CFG sentence through (production P, position i, child production C); `table` selects the tie-breaking
+        preference of the min-yields (0: identifiers, 1: integers, 2: strings as expression leaves)"""
         m = self.m
         ctx = self._contexts()
         out = []
@@ -531,18 +532,18 @@ class Families:
             cpre, csuf = ctx[P.name]
             nts = [i for i, s in enumerate(P.prod) if s in m.nonterminals]
             if not nts:
-                out.append(cpre + m.min_yield_seq(P.prod) + csuf)
+                out.append(cpre + m.min_yield_seq(P.prod, table) + csuf)
                 self.pair_targets += 1
             for i in nts:
                 for C in m.prods_of[P.prod[i]]:
                     if any(m.ycost.get(s, float('inf')) == float('inf') for s in C.prod):
                         continue
                     self.pair_targets += 1
-                    out.append(cpre + m.min_yield_seq(P.prod[:i]) + m.min_yield_seq(C.prod)
-                               + m.min_yield_seq(P.prod[i + 1:]) + csuf)
+                    out.append(cpre + m.min_yield_seq(P.prod[:i], table) + m.min_yield_seq(C.prod, table)
+                               + m.min_yield_seq(P.prod[i + 1:], table) + csuf)
         return out
 
-    def s0_triples(self, exclude=()):
+    def s0_triples(self, exclude=(), table=0):
         """minimal CFG sentence through every chain (production P, position i, child production C, position j,
         grandchild production D): two derivation steps away from the minimal sentences.  Distinct terminal strings
         not in `exclude`, sorted."""
@@ -559,20 +560,20 @@ class Families:
             for i, s in enumerate(P.prod):
                 if s not in m.nonterminals:
                     continue
-                a = cpre + m.min_yield_seq(P.prod[:i])
-                b = m.min_yield_seq(P.prod[i + 1:]) + csuf
+                a = cpre + m.min_yield_seq(P.prod[:i], table)
+                b = m.min_yield_seq(P.prod[i + 1:], table) + csuf
                 for C in m.prods_of[s]:
                     if not ok(C):
                         continue
                     for j, s2 in enumerate(C.prod):
                         if s2 not in m.nonterminals:
                             continue
-                        a2 = a + m.min_yield_seq(C.prod[:j])
-                        b2 = m.min_yield_seq(C.prod[j + 1:]) + b
+                        a2 = a + m.min_yield_seq(C.prod[:j], table)
+                        b2 = m.min_yield_seq(C.prod[j + 1:], table) + b
                         for D in m.prods_of[s2]:
                             if ok(D):
                                 self.triple_targets += 1
-                                out.add(a2 + m.min_yield_seq(D.prod) + b2)
+                                out.add(a2 + m.min_yield_seq(D.prod, table) + b2)
         ex = set(exclude)
         return sorted(x for x in out if x not in ex)
 
